@@ -26,7 +26,8 @@ Notation T := true (only parsing).
 Notation F := false (only parsing).
 '''
 
-KEY_DEFINE = 'define-quantifier-or-let-unusable'
+# (the class key 'define-quantifier-or-let-unusable' of finding F14 is retired:
+# repaired in /repo by ef8f9d8)
 
 
 # ------------------------------------------------------------------ tie G
@@ -320,18 +321,25 @@ def build_cases(ctx):
     return cases
 
 
-def finding_probes():
-    """Registered definitions that contain a quantifier or LET cannot be used
-    (finding, DESIGN §7): re-observed on every run."""
+def define_probes():
+    """Registered definitions that contain a quantifier or LET (the class of
+    the repaired defect F14: before ef8f9d8 such a definition was accepted
+    but could not be used, or crashed `define`).  Ordinary cases now: a
+    mismatch is a violation."""
     decl = {'x': (0, 3), 'y': (-2, 1)}
     q = ('quant', 'E', [('y', False)],
          ('cmp', '=', ('arith', '+', ('var', 'x'), ('var', 'y')), ('num', 0)))
+    a = ('quant', 'A', [('y', False)],
+         ('cmp', '<', ('arith', '+', ('var', 'x'), ('var', 'y')), ('num', 4)))
     return [dict(kind='pred', decl=decl, tree=('op', 'p'), defs=[('p', q)],
-                 cls='probe:define-quantifier', key=KEY_DEFINE)]
+                 cls='probe:define-quantifier'),
+            dict(kind='pred', decl=decl,
+                 tree=('bin', '\\/', ('op', 'p'), ('op', 'r')),
+                 defs=[('p', a), ('r', q)], cls='probe:define-quantifier')]
 
 
 def correspond(ctx):
-    cases = build_cases(ctx) + finding_probes()
+    cases = build_cases(ctx) + define_probes()
     ctx.log(f'{len(cases)} cases generated')
     with concurrent.futures.ProcessPoolExecutor(core.NPROC) as ex:
         runs = list(ex.map(run_case, cases, chunksize=16))
